@@ -5,7 +5,9 @@
 set -u
 work=$1; shift
 mkdir -p $work
-rsync -a --delete --exclude .git /repo/ $work/repo/
+# (the committed state of /repo, not its working tree: somebody may be trying a patch there right now)
+fresh_repo() { rm -rf $work/repo; mkdir -p $work/repo; git -C /repo archive HEAD | tar -x -C $work/repo; }
+fresh_repo
 rsync -a --delete --exclude .git --exclude replay --exclude build/cases /verif/ $work/verif/
 mkdir -p $work/verif/replay
 tags=("$@")
@@ -13,7 +15,7 @@ if [ ${#tags[@]} -eq 0 ]; then tags=($(ls /verif/seeded | grep -v RESULTS.md)); 
 missed=0; stale=0; n=0
 for t in "${tags[@]}"; do
   p=${t:0:3}; n=$((n+1))
-  rsync -a --delete --exclude .git /repo/ $work/repo/
+  fresh_repo
   if ! (cd $work/repo && patch -p1 --dry-run -s < /verif/seeded/$t/patch.diff >/dev/null 2>&1); then echo "$t: STALE (patch does not apply)"; stale=$((stale+1)); continue; fi
   (cd $work/repo && patch -p1 -s < /verif/seeded/$t/patch.diff)
   out=$(cd $work/verif && VERIF_REPO=$work/repo VERIF_EVIDENCE_DIR=$work/verif/build/evidence-seeded ./check $p --tier quick 2>&1); rc=$?
